@@ -380,10 +380,15 @@ class IntegrityChecker(object):
                             level="violation",
                             category="feature size"))
             else:
-                if len(self.ds[feat]) != lends:
+                lenfeat = len(self.ds[feat])
+                if feat == "contour" and self.ds.format == "hdf5":
+                    # The HDF5 reader does not count the contours, but
+                    # takes their number from the metadata (for speed).
+                    lenfeat = len(self.ds.h5file["events"]["contour"])
+                if lenfeat != lends:
                     cues.append(ICue(
                         msg=f"Features: wrong event count: '{feat}' "
-                            + f"({len(self.ds[feat])} of {lends})",
+                            + f"({lenfeat} of {lends})",
                         level="violation",
                         category="feature size"))
         return cues
